@@ -74,6 +74,69 @@ func runC11(w *mon.Worker) {
 	for i := 0; i < w.Share(w.Scale(800, 16000)); i++ {
 		w.Case("promise-gated", nil, promiseGatedCase)
 	}
+	// no perturbation: the narrowest windows (a first awaiter arriving exactly while SetResult publishes) need raw speed
+	for i := 0; i < w.Share(w.Scale(64, 2000)); i++ {
+		w.Case("promise-barrier", nil, promiseBarrierCase)
+	}
+}
+
+// promiseBarrierCase: on each of a few thousand fresh promises one first awaiter and one SetResult are released by the
+// same barrier. Whatever the order, the awaiter returns the result.
+func promiseBarrierCase(c *mon.Case) {
+	r := c.Rng
+	iters := 1500 + r.IntN(1500)
+	kind := r.IntN(3)
+	ctx := context.Background()
+	type slot struct {
+		p    *promise.Promise[int]
+		val  int
+		err  error
+		done chan struct{}
+	}
+	for it := 0; it < iters; it++ {
+		sl := &slot{p: promise.NewPromise[int](), done: make(chan struct{})}
+		start := make(chan struct{})
+		go func() {
+			<-start
+			switch kind {
+			case 0:
+				sl.val, sl.err = sl.p.Await(ctx)
+			case 1:
+				sl.val, sl.err = sl.p.AwaitWithErrCh(ctx, nil)
+			default:
+				sl.val, sl.err = sl.p.AwaitWithCancelCh(ctx, nil)
+			}
+			close(sl.done)
+		}()
+		go func() {
+			<-start
+			sl.p.SetResult(it+1, nil)
+		}()
+		close(start)
+		select {
+		case <-sl.done:
+		case <-time.After(2 * time.Second):
+			if mon.Quiesce(5*time.Second) && mon.QuiesceConfirmed(100*time.Millisecond, 5*time.Second) {
+				select {
+				case <-sl.done:
+				default:
+					c.Violate("lost-wakeup", "promise-awaiter-blocked-with-result", "iteration %d: a first awaiter (kind %d) and SetResult were released together on a fresh promise; the result is set, the awaiter is still blocked in a quiescent process", it, kind)
+					return
+				}
+			} else {
+				c.Inconclusive("awaiter did not return and no quiescence")
+				return
+			}
+		}
+		if sl.err != nil || sl.val != it+1 {
+			c.Violate("promise", "await-result-mismatch", "iteration %d: the awaiter returned (%d, %v), SetResult stored (%d, nil)", it, sl.val, sl.err, it+1)
+			return
+		}
+	}
+	c.Count("barrier_await_set_pairs", int64(iters))
+	c.Evals(iters)
+	c.NonTrivial()
+	c.Mix(uint64(kind))
 }
 
 type pIn struct {
